@@ -121,7 +121,36 @@ def pred_c09_malformed_bracket_host(v):
     return bracket_host_malformed(_input_netloc(s))
 
 
+_PORT_MSGS = ("Invalid URL: port can't be converted to integer", "Port out of range 0-65535")
+
+
+def pred_c19_malformed_bracket_host_unstringifiable(v):
+    """F2 seen through C19: a URL whose lineage contains an accepted-but-invalid bracketed host
+    ('[a:b]', '[1::2::3]') stores a netloc that cannot be split again, so str() of the URL a
+    modifier or build(authority=...) returned raises ValueError about the port."""
+    if v.get("kind") != "result_not_stringifiable":
+        return False
+    exc = v.get("exc") or []
+    if len(exc) < 3 or exc[1] != "ValueError" or exc[2] not in _PORT_MSGS:
+        return False
+    state = v.get("state") or []
+    if len(state) != 5:
+        return False
+    hostinfo = state[1].rpartition("@")[2]
+    if "[" in hostinfo or ":" not in hostinfo:
+        return False
+    for kind, text in v.get("lineage_texts") or []:
+        if kind == "new":
+            if bracket_host_malformed(_input_netloc(text)):
+                return True
+        elif kind in ("authority",):
+            if bracket_host_malformed(text):
+                return True
+    return False
+
+
 PREDICATES = {
+    "c19_malformed_bracket_host_unstringifiable": pred_c19_malformed_bracket_host_unstringifiable,
     "c09_collapsed_authority": pred_c09_collapsed_authority,
     "c09_malformed_bracket_host": pred_c09_malformed_bracket_host,
 }
